@@ -37,7 +37,8 @@ def run_cli(argv):
     og = ofxget()
     ns = og.make_argparser().parse_args(argv)
     buf = io.StringIO()
-    with contextlib.redirect_stdout(buf), warnings.catch_warnings():
+    # -v -v: what main() does with it is to configure logging at DEBUG; the request must not depend on that
+    with c06.verbose_logging({"loglevel": "DEBUG" if getattr(ns, "verbose", 0) >= 2 else None}), contextlib.redirect_stdout(buf), warnings.catch_warnings():
         warnings.simplefilter("ignore")
         args = og.merge_config(ns, og.USERCFG)
         og.REQUEST_HANDLERS[args["request"]](args)
@@ -138,6 +139,9 @@ def dry_work(chunk):
             if val is not None and not (opt == "-a" and cmd != "stmt"):
                 argv += [opt, val]
         for f in flags:
+            if f == "verbose":
+                argv += ["-v", "-v"]
+                continue
             argv.append({"inctran": "--no-transactions", "incbal": "--no-balances", "incpos": "--no-positions", "incoo": "--open-orders"}[f])
         fl = {"inctran": "inctran" not in flags, "incbal": "incbal" not in flags, "incpos": "incpos" not in flags, "incoo": "incoo" in flags}
         case = {"part": "dryrun", "argv": argv}
@@ -259,7 +263,7 @@ def cfg_all_work(chunk):
                 return F.ok(F.generic_response("statements", rq["trnuids"]))
 
             net.handler = handler
-            argv = [cmd, "mybank", "--password", "pw", "--all", "--skipprofile"]
+            argv = [cmd, "mybank", "--password", "pw", "--all", "--skipprofile"] + (["-v", "-v"] if len(seq) % 2 == 0 else [])
             active = [(e[0], e[2] if len(e) > 2 else f"{e[0][:2]}{i}") for i, e in enumerate(seq) if e[1] == "ACTIVE" and (cmd == "stmt" or e[0] != "investment")]
             case = {"part": "cfg-all", "cmd": cmd, "seq": [list(x) for x in seq]}
             sig = f"C19|{cmd}|all-with-configured-accounts"
@@ -324,6 +328,9 @@ def run(ctx):
             jobs.append(("dry", ("stmt", base, (DATE_TEXTS[1], DATE_TEXTS[2], None), fs)))
             jobs.append(("dry", ("stmt", base, (DATE_TEXTS[2], DATE_TEXTS[1], DATE_TEXTS[3]), fs)))
             jobs.append(("dry", ("stmt", base, (None, None, DATE_TEXTS[4]), fs)))
+            jobs.append(("dry", ("stmt", base, (DATE_TEXTS[1], DATE_TEXTS[2], DATE_TEXTS[3]), fs + ("verbose",))))
+    jobs.append(("dry", ("stmt", (2, 1, 1, 1, 2, 2), nd, ("verbose",))))
+    jobs.append(("dry", ("stmtend", (2, 1, 1, 1, 2, 0), (DATE_TEXTS[1], DATE_TEXTS[2], None), ("verbose",))))
     kinds = [(ty, st) for ty in TYPES for st in STATUSES]
     seqs = [()] + [(k,) for k in kinds] + list(itertools.product(kinds, repeat=2))
     act = [(ty, "ACTIVE") for ty in TYPES]
@@ -381,7 +388,7 @@ def run(ctx):
         "evaluations": tally.counts.get("evaluations", 0),
         "distinct_nontrivial": tally.counts.get("evaluations", 0) - 1,
         "rule": "A: `stmt --dryrun` for all 729 assignments of {0,1,2} ids to 6 account types and `stmtend --dryrun` for all 243 over 5 types (options interleaved on the command line), "
-        "each date option alone x 4 notations, all 27 combinations of 3 date texts over (-s,-e,-a), every non-empty subset of the 4 include flags (with and without dates); printed request read by the "
+        "each date option alone x 4 notations, all 27 combinations of 3 date texts over (-s,-e,-a), every non-empty subset of the 4 include flags (with and without dates, and with -v -v = logging at DEBUG); printed request read by the "
         "reference reader and compared with the expected request; B: `stmt --all` / `stmtend --all` against the scripted server for every account sequence of length <=2 over 6 types x 3 statuses"
         + (", every ACTIVE-only sequence of length 3 and a seed-chosen quarter of the length-3 multisets" if ctx.quick else " and every sequence of length 3 (5832)") +
         "; + the same for a nickname whose configuration already lists (other) accounts, bank id and broker id, over all orderings of one ACTIVE account per type with inactive ones in between; the statement "
